@@ -136,12 +136,15 @@ def _gen_pair(rng, tier, i):
     """exhaustive: every pair of multisets of <= 2 intervals over coordinates 0..4 (quick; thorough: <= 2 x <= 3 over
     0..6), decorated with rows on a second chromosome and a gene column; then random tables of up to 40 rows with
     coordinates to 10^6 biased toward duplicates, abutting, overlapping and nested rows"""
-    p = _pair_from_index(i, tier, rng)
-    if p is not None:
+    # the random and structured cases come first, so that a time budget that runs out truncates the exhaustive
+    # enumeration rather than them (seed C06_1 was missed on a loaded machine that way)
+    n_rand = 400 if tier == "quick" else 4000
+    if i >= n_rand:
+        p = _pair_from_index(i - n_rand, tier, rng)
+        if p is None:
+            return None
         a, b = _decorate(p[0], p[1], rng)
         return dict(a=a, b=b)
-    if i >= _n_exh(tier) + (400 if tier == "quick" else 4000):
-        return None
     if rng.random() < 0.35:
         # one keeper row with 3..6 disjoint exclusions that may or may not reach either edge
         L = rng.choice([12, 40, 1000])
